@@ -10,12 +10,12 @@ class Grammar(qc.FullGrammar):
                     ("suspend", 1), ("resume", 1), ("retarget", 2)]
 
     def build_graph(self, P, h):
-        n = qc.build_full_graph(P, h, allow_workloop=self.allow_workloop, serial_bottom=True)
+        n = qc.build_full_graph(P, h, allow_workloop=self.allow_workloop, serial_bottom=True, allow_main=True)
         P.groups = [0]
         P.pool_done = False
         P.movable, P.immigrants = [], {}
         # (a queue whose hierarchy contains a workloop loses DQF_MUTABLE: retargeting it is a documented client crash)
-        if any(d["kind"] == 4 for d in P.queues.values()):
+        if any(d["kind"] in (3, 4) for d in P.queues.values()):     # (nor are hierarchies that end in the main queue retargeted)
             return
         # leaf queues created the legacy way (dispatch_queue_create + dispatch_set_target_queue) may be retargeted while they are busy.
         # "movable": already in the hierarchy, moved to another queue of it (group unchanged).
